@@ -960,12 +960,21 @@ def convolve_dim(f, convolve_def):
         p2p.addVariable(f, outf, vark, data=not lconvolve)
         if lconvolve:
             axisi = list(var.dimensions).index(dimkey)
-            values = np.apply_along_axis(func1d=lambda x_: np.convolve(
+            if isinstance(var[:], np.ma.MaskedArray):
+                # masked cells make every window they touch masked
+                cfunc = np.ma.convolve
+            else:
+                cfunc = np.convolve
+            values = np.apply_along_axis(func1d=lambda x_: cfunc(
                 weights, x_, mode=mode), axis=axisi, arr=var[:])
             if isinstance(var[:], np.ma.MaskedArray):
                 values = np.ma.masked_invalid(values)
 
-            outf.variables[vark][:] = values
+            outvar = outf.variables[vark]
+            if values.dtype != outvar.dtype:
+                # weights are floating point; do not truncate into integers
+                outvar = outf.variables[vark] = outvar.astype(values.dtype)
+            outvar[:] = values
     return outf
 
 
